@@ -383,6 +383,23 @@ def check_remove(ctx, tu, info, f):
         hp = f.params[-1]['id']
         ok = ok and any(root_var_id(argpath(f, a)) == hp for a in f.call_args(e)) and any(root_var_id(argpath(f, a)) == hp for a in f.call_args(rm[0]))
     ctx.ob('C15.P3', f, 'remove erases the record first and detaches from the target only a listener it had recorded', ok)
+    if ok:
+        # "reports whether it was attached": where the record existed, the answer is the target's own answer (the listener may have been
+        # detached behind the remover's back, e.g. by removing itself directly from the list)
+        bad = []
+        for r in f.return_nodes():
+            ks = f.kids(r)
+            if not ks or not f.pos_reaches(f.pos(rm[0]), f.pos(r)):
+                continue
+            v = f.value_source(ks[0])
+            if f.nodes[v]['cls'] == 'DeclRefExpr' and f.decl(v).get('kind') == 'var':
+                vd = f.var_decls().get(f.decl(v)['id'])
+                if vd and vd.get('init'):
+                    v = f.value_source(vd['init'])
+            if v != rm[0]:
+                bad.append(f.nloc(r))
+        ctx.ob('C15.P3', f, 'after detaching, remove reports the target\'s own result', not bad,
+               detail='return at %s does not return what the target\'s %s reported' % (', '.join(bad), want), key_detail='remove result')
     for g in tu.fns_named('removeHandleFromScopedRemoverItemList'):
         si = info.scopes(g)
         er = [n for n in g.calls() if (g.callee(n) or {}).get('name') == 'erase']
